@@ -6,3 +6,5 @@ package raft
 // verifPoint marks a point of interest for the verification harness
 // (build tag verif). Without the tag it compiles to nothing.
 func verifPoint(name string) {}
+
+func verifRoles(*follower, *candidate, *leader) {}
